@@ -249,10 +249,21 @@ def run_shard(desc):
                     continue
                 bodies.append(body.hex())
                 try:
-                    msg = Message.unpack(2, body, neg)
+                    # the production receive path: Protocol.read_message over a socket pair (what it does not hand over - a
+                    # message it turns into a NOP - never reaches the handler, exactly as in Peer._main), then the handler
+                    from vlib.props import c08
+
+                    out = loop.run_until_complete(c08.through_read_message(nb, neg, body))
+                    if out[0] != 'msg':
+                        res.violation(f'C02/ribin-refuses-wellformed:{out[1]}', f'read_message answered {out[1:]} to a well-formed UPDATE', {'session': sk['name'], 'body': body.hex()[:400]}, 'ribin')
+                        break
+                    msg = out[1]
                     if getattr(msg, 'IS_EOR', False):
                         continue
-                    loop.run_until_complete(handler.handle_async(ctx, msg))
+                    if getattr(msg, 'SCHEDULING', False):
+                        res.count('ribin:update-not-handed-over-by-read_message')
+                    elif handler.can_handle(msg):
+                        loop.run_until_complete(handler.handle_async(ctx, msg))
                 except Exception as e:  # noqa
                     res.violation(f'C02/ribin-raises:{type(e).__name__}', f'UpdateHandler raised {type(e).__name__}: {str(e)[:100]}', {'session': sk['name'], 'bodies': bodies[-3:]}, 'ribin')
                     break
